@@ -34,6 +34,9 @@ def sizes1(ctx, L):
 
 def sizes2(ctx, L):
     base = sorted({2, 3, 4, 5, max(2, L - 1), L, L + 1, L + 2, 2 * L + 1, 2 * L + 4, 15, 16})
+    if not ctx.quick and L > 12:
+        # long filters: the per-axis behaviour is covered by the 1-D grid; keep the 2-D product small
+        base = sorted({2, 3, max(2, L - 1), L + 1, 2 * L + 1, L + 2, 16}) if L <= 40 else sorted({3, L - 1, L + 2, 2 * L + 1})
     if ctx.quick:
         base = sorted({2, 3, max(2, L - 1), L + 1, L + 2, 13, 16})
     out = []
